@@ -79,6 +79,12 @@ def _run(job):
         out['report_path'] = str(res.output_file_path)
         out['result'] = json.loads(json.dumps(res.result, default=str))
         out['csv'] = res.as_csv()
+        # exporting must not change what the client holds: the result after the export, and a second export
+        out['result_after_export'] = json.loads(json.dumps(res.result, default=str))
+        try:
+            out['csv2'] = res.as_csv()
+        except BaseException as e:  # noqa
+            out['csv2'] = f'raised {type(e).__name__}: {e}'[:200]
         jp = Path(res.output_file_path).with_suffix('.json')
         out['json'] = json.loads(jp.read_text()) if jp.exists() else None
         out['json_path_used_by_client'] = str(res.json_output_file_path)
@@ -242,6 +248,9 @@ def check_one(chk: core.Check, name, r, lines_out, pending):
                 for row in fields[1:]:
                     want.append([cat, nm, str(row[0]), '' if row[i] is None else str(row[i]), un.replace(')', '')])
     chk.case(('csv', name), True)
+    if r.get('result_after_export') != result or r.get('csv2') != r['csv']:
+        chk.fail('C10/export-changes-result', 'exporting the result as CSV changes the result the client holds (or a second export differs from the first): later readers of the same result '
+                 'object get other tables', {**rep, 'result_changed': r.get('result_after_export') != result, 'second_export': (r.get('csv2') or '')[:200] if r.get('csv2') != r['csv'] else 'equal'})
     if sorted(map(tuple, got[1:])) != sorted(map(tuple, want)):
         extra = [g for g in got[1:] if g not in want][:2]
         missing = [w for w in want if w not in got[1:]][:2]
@@ -360,9 +369,16 @@ def extra_cases(chk: core.Check):
     neg = geo.base_params(3, 2, 9, L=8, n=1)
     neg.update({'Starting Heat Sale Price': 0.0001, 'Ending Heat Sale Price': 0.0001})
     out.append(('negative-cashflow', neg))
-    s = geo.base_params(2, 1, 1, L=10, n=1)
-    s.update({'S-DAC-GT': 'On'})
+    s = geo.base_params(2, 31, 4, L=10, n=1)
+    s.update({'Do S-DAC-GT Calculations': 'True'})
     out.append(('sdacgt', s))
+    # output-unit directives on outputs whose report lines follow the requested unit: report, client and JSON must all carry the converted value
+    dcase = geo.base_params(2, 1, 1, L=9, n=1)
+    dcase.update({'Units:Bottom-hole temperature': 'degF', 'Units:Total Capital Cost': 'KUSD'})
+    out.append(('directive', dcase))
+    bigrev = geo.base_params(2, 1, 1, L=30, n=1)
+    bigrev.update({'Number of Production Wells': 16, 'Number of Injection Wells': 16, 'Starting Electricity Sale Price': 0.15, 'Ending Electricity Sale Price': 0.15, 'Gradient 1': 70})
+    out.append(('billion-revenue', bigrev))
     return out
 
 
